@@ -272,6 +272,10 @@ def gen_site(tape, nhosts=1, npages=6, with_requisites=True, with_redirects=True
         for a in assets:
             if tape.chance(1, 3, 'site.inline'):
                 p.inlines.append((a, spell(tape, p, a), 'css' if a.kind == 'css' else 'img'))
+            if a.kind == 'bin' and tape.chance(1, 6, 'site.link_to_asset'):
+                # the same object may be linked (<a>) as well as embedded. Only leaf objects: a style sheet reached both
+                # ways would make everything below it depend on which record the table happened to keep (C01-K2/K3)
+                p.links.append((a, spell(tape, p, a)))
     # make sure the start page links somewhere
     start = pages[0]
     if not start.links and len(pages) > 1:
